@@ -1,9 +1,9 @@
 #!/bin/sh
 # tools/ctl_wt.sh <worktree>: a behaviour-preserving refactoring in a scratch worktree against all 20
-# checks (PYVC_REPO, /repo untouched): FALSE-ALARM lines for VIOLATION / non-zero exit, else counts
+# checks, or those named in $CTL_PROPS (PYVC_REPO, /repo untouched): FALSE-ALARM lines for VIOLATION / non-zero exit, else counts
 wt="$1"
 export PYVC_REPO="$wt" PYVC_EVIDENCE_DIR=/tmp/ctl_evidence_$$ PYVC_REPLAY_DIR=/tmp/ctl_replays_$$
-for p in C01 C02 C03 C04 C05 C06 C07 C08 C09 C10 C11 C12 C13 C14 C15 C16 C17 C18 C19 C20; do
+for p in ${CTL_PROPS:-C01 C02 C03 C04 C05 C06 C07 C08 C09 C10 C11 C12 C13 C14 C15 C16 C17 C18 C19 C20}; do
   out=$(cd /verif && ./check "$p" quick 2>&1); rc=$?
   line=$(printf '%s\n' "$out" | grep "quick:" | head -1)
   if [ "$rc" != 0 ] || printf '%s\n' "$out" | grep -q "^VIOLATION"; then
